@@ -60,6 +60,17 @@ Cmp(flat) == CompFromPairs([ k \in 1..(Len(flat) \div 2) |-> <<flat[2 * k - 1], 
 IsIsotopeSym(s) == At(s, 1) \in Digits \/ s \in {"D", "T"}
 KnownMono(s) == s \in MonoSymbols
 KnownAvg(s)  == s \in AvgSymbols
+(* every chemical element symbol (periodic table, Z = 1..118); D and T are the hydrogen isotopes' own symbols      *)
+AllElementSymbols == {
+    "H", "He", "Li", "Be", "B", "C", "N", "O", "F", "Ne", "Na", "Mg", "Al", "Si", "P", "S", "Cl", "Ar", "K", "Ca",
+    "Sc", "Ti", "V", "Cr", "Mn", "Fe", "Co", "Ni", "Cu", "Zn", "Ga", "Ge", "As", "Se", "Br", "Kr", "Rb", "Sr", "Y", "Zr",
+    "Nb", "Mo", "Tc", "Ru", "Rh", "Pd", "Ag", "Cd", "In", "Sn", "Sb", "Te", "I", "Xe", "Cs", "Ba", "La", "Ce", "Pr", "Nd",
+    "Pm", "Sm", "Eu", "Gd", "Tb", "Dy", "Ho", "Er", "Tm", "Yb", "Lu", "Hf", "Ta", "W", "Re", "Os", "Ir", "Pt", "Au", "Hg",
+    "Tl", "Pb", "Bi", "Po", "At", "Rn", "Fr", "Ra", "Ac", "Th", "Pa", "U", "Np", "Pu", "Am", "Cm", "Bk", "Cf", "Es", "Fm",
+    "Md", "No", "Lr", "Rf", "Db", "Sg", "Bh", "Hs", "Mt", "Ds", "Rg", "Cn", "Nh", "Fl", "Mc", "Lv", "Ts", "Og", "D", "T" }
+(* the element of a composition key: "13C" -> "C"; particles stand for themselves *)
+ElementOf(sym) == LET d == SkipWhile(sym, 1, Digits) IN SubSeq(sym, d, Len(sym))
+RealSymbols(c) == \A s \in DOMAIN c : s \in {"e", "p", "n"} \/ ElementOf(s) \in AllElementSymbols
 Resolvable(c, mono) == \A s \in DOMAIN c : IF mono THEN KnownMono(s) ELSE KnownAvg(s)
 
 (* x / 10^4 for a Fix number (exact to 1e-9, truncating) *)
